@@ -464,7 +464,7 @@ class Run:
             self.broken.append({"kind": "harness", "name": "harness:build:collide", "detail": o[-400:]})
             return
         eng = self.cov["engines"].setdefault("collide", {"cases": 0, "checked": 0, "diffs": 0, "traces": 0})
-        runs = [("corpus", None)] + [(m, i) for i, m in enumerate(["full", "restart", "nomerge", "safe"])]
+        runs = [("corpus", None)] + [(m, i) for i, m in enumerate(["full", "restart", "nomerge", "safe", "gcmate"])]
         for mix, i in runs:
             trace = os.path.join(self.scratch, "collide-%s.trace" % mix)
             if mix == "corpus":
